@@ -105,6 +105,14 @@ def _flagged(w, ev, slot, name, do, expected, oracle, approx=None,
     twin = bool(ev.get('twin', 0))
     refuse = isinstance(expected, ModelError)
     out = []
+    iform = ev.get('iform', 0) % 3
+    if iform:
+        # the documented boolean may arrive as a numpy bool (the result of a
+        # comparison) or as 0/1
+        typed_do = do
+
+        def do(real, inpl):
+            return typed_do(real, np.bool_(inpl) if iform == 1 else int(inpl))
     # F6: the 'empty' kind set to 'raise' by a scoped override around an
     # operation that empties the table: TableException must come out, the
     # profile must be restored, a non-in-place call must leave everything
@@ -810,7 +818,7 @@ def op_norm(w, ev, slot):
         return 'skip:negative'
     with np.errstate(all='ignore'):
         sums = ref.m.sum(axis=1 - ax)
-        if not np.isfinite(sums).all() or (sums[sums != 0] < 1e-290).any():
+        if not np.isfinite(sums).all():
             return 'skip:overflow'
         expected = _apply_vecwise(ref, ax, lambda x: x / x.sum())
     if not np.isfinite(expected.m).all():
@@ -995,6 +1003,29 @@ def op_subsample(w, ev, slot):
         return b if form == 0 else (np.bool_(b) if form == 1 else int(b))
 
     def do(real):
+        if ev.get('gen') and not wr:
+            # biom.util.generate_subsamples: the documented generator of
+            # repeated draws.  It passes no seed, so the library asks numpy
+            # for OS entropy; that call is the seam (the simulator supplies
+            # the seed), nothing else is patched
+            from biom.util import generate_subsamples
+            orig_rng = np.random.default_rng
+
+            def seeded(s=None, *a_, **k_):
+                return orig_rng(seed if s is None else s, *a_, **k_)
+            np.random.default_rng = seeded
+            try:
+                g = generate_subsamples(real, n, AXNAME[ax], by_id) \
+                    if ev.get('pos') else generate_subsamples(
+                        real, n, axis=AXNAME[ax], by_id=by_id)
+                first = next(g)
+                if ev['gen'] > 1:
+                    next(g)         # a later draw; the first is the result
+                g.close()
+            finally:
+                np.random.default_rng = orig_rng
+            w.stats['subsample.via_generator'] += 1
+            return first
         if ev.get('pos'):
             return real.subsample(n, AXNAME[ax], flag(by_id), flag(wr), seed)
         return real.subsample(n, axis=AXNAME[ax], by_id=flag(by_id),
@@ -1070,6 +1101,15 @@ def ev_perturb(w, ev):
         ids = ref.ids[ax]
         mid = t.sort_order([ids[i] for i in perm], axis=AXNAME[ax])
         install(mid.sort_order(list(ids), axis=AXNAME[ax]))
+    elif name == 'groupmd':
+        # group metadata added to this table only; every other live table
+        # (the ones this one was derived from, or that were derived from it)
+        # must keep its own (checked for all slots after every event)
+        ax = ev.get('ax', 0) & 1
+        k = ev.get('i', 0)
+        t.add_group_metadata({'g%d' % (k % 3): ('txt', 'payload %d' % k)},
+                             axis=AXNAME[ax])
+        slot.group_md_baseline()
     elif name == 'tt':
         if ref.type is not None:
             return 'skip:typed'
